@@ -36,7 +36,7 @@ var c19Files = []string{
 	"k: a\nBenchmarkL 1 1 ns/op\nk: b\nBenchmarkL 1 2 ns/op\nk: c\nBenchmarkL 1 3 ns/op\nk: d\nBenchmarkL 1 4 ns/op\nk: e\nBenchmarkL 1 5 ns/op\nk: f\nBenchmarkL 1 6 ns/op\nk: g\nBenchmarkL 1 7 ns/op\nk:\nBenchmarkL 1 8 ns/op\n",
 	// configuration lines that leave the labels as they were: a label restated verbatim, a key set and removed again,
 	// a value changed and changed back — the results around them have equal labels and are ONE record
-	"k: a\nBenchmarkA 1 1 ns/op\nk: a\nBenchmarkA 1 2 ns/op\nz: 1\nz:\nBenchmarkA 1 3 ns/op\nk: b\nk: a\nBenchmarkA 1 4 ns/op\nk: b\nBenchmarkA 1 5 ns/op\n",
+	"k: a\nBenchmarkA 1 1 ns/op\nk: a\nBenchmarkA 1 2 ns/op\nz: 1\nz:\nBenchmarkA 1 3 ns/op\nk: b\nk: a\nBenchmarkA 1 4 ns/op\nk: b\nBenchmarkA 1 5 ns/op\nj: tuned \nBenchmarkA 1 6 ns/op\nj: tuned\nBenchmarkA 1 7 ns/op\n",
 }
 
 // uploads of the state alphabet: lists of file indices
@@ -270,6 +270,10 @@ func c19Terms(ids []string) []term {
 	add("sub1", ":", "sub")
 	// names with a dash that is not the -N suffix (only the LAST dash, followed by digits, is one)
 	add("sub1", ":", "utf-8")
+	// a label value that ends in a blank is another value than the same text without it
+	add("j", ":", "tuned ")
+	add("j", ":", "tuned")
+	add("j", ">", "tuned")
 	add("name", ":", "E-x")
 	add("k2", ":", "v")
 	add("gomaxprocs", ":", "4")
